@@ -635,6 +635,36 @@ def check(model, rep):
                'IndexError instead of returning the rendering' % val[:60], line=line)
     rep.floor('R20.7', 'payload stores of Screw.__init__', n_store, 2)
 
+    # ---------------------------------------------------------------- R20.10
+    # printTFlist reads the cells of a list of transforms / wrenches as `matrix[i][j]` and hands large ones to the builtin round(): what an
+    # integer index of a tm / Screw returns must be an array SCALAR (the element read `payload[ind, 0]`, or a Python float made from it), which
+    # implements __round__ - not an ndarray made from it (np.asarray / np.array / np.atleast_1d of the element formats like a number and
+    # compares like one, but has no __round__: disp raises TypeError for entries of magnitude >= 9999)
+    rep.rule('R20.10', 'indexing a transform or a screw / wrench with an integer returns the payload element itself (`payload[ind, 0]`, or float(...) of it): '
+                       'an array scalar, on which printTFlist can call round()')
+    n_gi = 0
+    for cmod, cname, pay in (('basic_robotics.general.faser_transform', 'tm', 'self.TAA'), ('basic_robotics.general.faser_screw', 'Screw', 'self.data')):
+        gi = model.cls(cmod, cname).methods.get('__getitem__')
+        if gi is None:
+            raise AnalysisError('anchor vanished: %s.__getitem__' % cname)
+        indp = gi.params[1]
+        for pth in paths_of(gi.node, gi.params):
+            if pth.kind != 'return' or pth.ret is None:
+                continue
+            if pth.facts.get('isinstance(%s,slice)' % indp) is True:
+                continue                                   # the slice path returns a view of the payload rows
+            n_gi += 1
+            r_ = pth.ret.replace(' ', '')
+            elem = '%s[%s,0]' % (pay, indp)
+            okf = r_ in (elem, 'float(%s)' % elem, '%s.item()' % elem, '%s[%s][0]' % (pay, indp), 'float(%s[%s][0])' % (pay, indp))
+            wrapped = elem in r_ and any(w_ in r_ for w_ in ('np.asarray(', 'np.array(', 'np.atleast_1d(', 'np.asanyarray(', 'numpy.asarray(', 'numpy.array('))
+            rep.ob('R20.10', gi, '%s[int] returns %s' % (cname, r_[:60]), okf,
+                   '%s.__getitem__ returns %s for an integer index: %s' % (cname, r_[:60],
+                       'an ndarray wrapped around the element - it has no __round__, so disp of a list of %s objects with an entry of magnitude >= 9999 raises '
+                       'TypeError instead of returning the table' % ('transform' if cname == 'tm' else 'wrench / screw') if wrapped else 'not recognised as the payload element'),
+                   shape=not wrapped and not okf, line=pth.ret_line)
+    rep.floor('R20.10', 'integer-index returns of tm / Screw __getitem__', n_gi, 2)
+
     # ---------------------------------------------------------------- R20.9
     # tm.__getitem__ reads `self.TAA[k, 0]`: a list of transforms is rendered through it, so the six-vector must be a 6x1 COLUMN whenever a
     # method of tm returns.  TAAtoTM() brings whatever was stored to (6, 1); a whole store of self.TAA must be followed by it on the path,
